@@ -140,7 +140,7 @@ func RunJob(l *Loaded, job *Job, tweak func(*sym.Config)) (res *JobResult) {
 	res.Incon = append(res.Incon, e.Incon...)
 	res.Reached = e.Reached
 	res.Asserts = e.Asserts
-	res.Funcs = e.Funcs
+	res.Funcs = e.FuncCounts()
 	res.Stubs = e.Stubs
 	res.Cuts = e.CutsTotal
 	sol := e.Solver()
